@@ -16,29 +16,13 @@ Open Scope Z_scope.
 (* ------------------------------------------------------------------ one caller (thread-level or process-level binding) *)
 (* caller_bound g t n is_thr: thread t's own slot holds DBConnection n (is_thr = true), or it has no slot of
    its own and the process slot holds DBConnection n.  For EVERY body -- in particular for every prefix of a
-   body followed by a raise, "raise after k steps" for every k including none and all.
+   body followed by a raise, "raise after k steps" for every k including none and all -- : *)
 
-   fault_strikes g t body: the environment of the call carries the fault of the C07 finding
-   expire_raises_on_attributeless_instance (the parent connection holds an instance on which expire() raises)
-   AND the body, run to its end, touches that row: then conn.commit(close=True) raises AttributeError out of
-   its expiry loop after the database commit. *)
-
-(* FULL statement: either the function's value comes back and the table is the table before with everything
-   the body did, or the exception of the body comes out and the table is the table before *)
-Definition C08_all_or_nothing_full : Prop :=
+(* either the function's value comes back and the table is the table before with everything the body did,
+   or the exception of the body comes out and the table is the table before *)
+Theorem C08_all_or_nothing :
   forall (g : gst) (t : nat) (body : list bstep) (n : nat) (is_thr : bool),
     (t < length (g_threads g))%nat -> ts_phase (thread g t) = PIdle body -> caller_bound g t n is_thr -> g_lock g = None ->
-    let g' := run_sched g (repeat t (length body + 2)) in
-    (exists v, ts_phase (thread g' t) = PDone (Return v) (Some finished) /\ body_result (g_committed g) body = Return v /\
-               g_committed g' = body_table (g_committed g) body) \/
-    (exists e k, ts_phase (thread g' t) = PDone (Raised e k) (Some finished) /\ body_result (g_committed g) body = Raised e k /\
-                 g_committed g' = g_committed g).
-
-(* PARTIAL: it holds whenever the fault does not strike *)
-Theorem C08_all_or_nothing_partial :
-  forall (g : gst) (t : nat) (body : list bstep) (n : nat) (is_thr : bool),
-    (t < length (g_threads g))%nat -> ts_phase (thread g t) = PIdle body -> caller_bound g t n is_thr -> g_lock g = None ->
-    fault_strikes g t body = false ->
     let g' := run_sched g (repeat t (length body + 2)) in
     (exists v, ts_phase (thread g' t) = PDone (Return v) (Some finished) /\ body_result (g_committed g) body = Return v /\
                g_committed g' = body_table (g_committed g) body) \/
@@ -48,16 +32,14 @@ Proof. exact (@all_or_nothing_proof). Qed.
 
 (* what doInTransaction hands back or raises is exactly what the body returned or raised
    (same exception: same kind, raised by the same step) *)
-Theorem C08_same_exception_partial :
+Theorem C08_same_exception :
   forall (g : gst) (t : nat) (body : list bstep) (n : nat) (is_thr : bool),
     (t < length (g_threads g))%nat -> ts_phase (thread g t) = PIdle body -> caller_bound g t n is_thr -> g_lock g = None ->
-    fault_strikes g t body = false ->
     let g' := run_sched g (repeat t (length body + 2)) in
     ts_phase (thread g' t) = PDone (body_result (g_committed g) body) (Some finished).
 Proof. exact (@same_exception_proof). Qed.
 
-(* afterwards hub.getConnection() answers in EVERY thread what it answered before -- on every exit path,
-   the fault included (the finally clause) *)
+(* afterwards hub.getConnection() answers in EVERY thread what it answered before *)
 Theorem C08_hub_restored :
   forall (g : gst) (t : nat) (body : list bstep) (n : nat) (is_thr : bool),
     (t < length (g_threads g))%nat -> ts_phase (thread g t) = PIdle body -> caller_bound g t n is_thr -> g_lock g = None ->
@@ -66,56 +48,34 @@ Theorem C08_hub_restored :
 Proof. exact (@hub_restored_proof). Qed.
 
 (* the transaction is obsolete, its low-level connection handed back, the write lock free *)
-Definition C08_released_full : Prop :=
+Theorem C08_released :
   forall (g : gst) (t : nat) (body : list bstep) (n : nat) (is_thr : bool),
     (t < length (g_threads g))%nat -> ts_phase (thread g t) = PIdle body -> caller_bound g t n is_thr -> g_lock g = None ->
-    let g' := run_sched g (repeat t (length body + 2)) in
-    exists r, ts_phase (thread g' t) = PDone r (Some {| x_obsolete := true; x_released := true |}) /\ g_lock g' = None.
-
-Theorem C08_released_partial :
-  forall (g : gst) (t : nat) (body : list bstep) (n : nat) (is_thr : bool),
-    (t < length (g_threads g))%nat -> ts_phase (thread g t) = PIdle body -> caller_bound g t n is_thr -> g_lock g = None ->
-    fault_strikes g t body = false ->
     let g' := run_sched g (repeat t (length body + 2)) in
     exists r, ts_phase (thread g' t) = PDone r (Some {| x_obsolete := true; x_released := true |}) /\ g_lock g' = None.
 Proof. exact (@released_proof). Qed.
-
-(* the corner: when the fault strikes a body that returned, doInTransaction raises the AttributeError of
-   commit although the function succeeded; EVERYTHING the body did is committed (nothing is rolled back); the
-   hub is restored; the transaction is left open, its low-level connection not released (sqlite's lock is) *)
-Theorem C08_commit_failure :
-  forall (g : gst) (t : nat) (body : list bstep) (n : nat) (is_thr : bool) (v : list Z),
-    (t < length (g_threads g))%nat -> ts_phase (thread g t) = PIdle body -> caller_bound g t n is_thr -> g_lock g = None ->
-    fault_strikes g t body = true -> body_result (g_committed g) body = Return v ->
-    let g' := run_sched g (repeat t (length body + 2)) in
-    ts_phase (thread g' t) = PDone (Raised XCommit (length body)) (Some {| x_obsolete := false; x_released := false |}) /\
-    g_committed g' = body_table (g_committed g) body /\
-    (forall t', resolve g' t' = resolve g t') /\ g_lock g' = None.
-Proof. exact (@commit_failure_proof). Qed.
 
 (* ------------------------------------------------------------------ several threads, each with its own thread connection *)
 (* start_threads g0: every thread has a DBConnection in its own slot and has not started; valid_sched: the
    schedule names existing threads.  For EVERY interleaving at step granularity: *)
 
-(* a step changes the committed table only if it is the step in which that thread's body has run to its end
-   and commit runs; the table becomes that transaction's view at once (nothing partial is ever visible), and
-   (no fault in that thread's environment) its doInTransaction returns in that step *)
+(* a step changes the committed table only if it is the step in which that thread's doInTransaction
+   returns, and then the table becomes that transaction's view at once (nothing partial is ever visible) *)
 Theorem C08_threads_all_at_once :
   forall (g0 : gst) (sched : list nat) (t : nat),
     let g := run_sched g0 sched in
     g_committed (tick g t) = g_committed g \/
-    exists old is_thr v cached touched k created,
-      ts_phase (thread g t) = PRun old is_thr (Some v) cached touched [] k created /\
+    exists old is_thr v cached k created,
+      ts_phase (thread g t) = PRun old is_thr (Some v) cached [] k created /\
       g_committed (tick g t) = v /\
-      ((t < length (g_threads g0))%nat -> ts_poison (thread g0 t) = None ->
-       ts_phase (thread (tick g t) t) = PDone (Return created) (Some finished)).
+      ((t < length (g_threads g0))%nat -> ts_phase (thread (tick g t) t) = PDone (Return created) (Some finished)).
 Proof. exact (@threads_step_proof). Qed.
 
-(* a doInTransaction that ends by raising what its body raised (its own exception, not-found, or sqlite's lock
-   error when another thread's transaction holds the write lock) changed the table in none of its steps *)
+(* a doInTransaction that ends by raising (its own exception, not-found, or sqlite's lock error when another
+   thread's transaction holds the write lock) changed the table in none of its steps *)
 Theorem C08_threads_nothing_on_raise :
   forall (g0 : gst) (p : list nat) (t : nat) (q : list nat) (e : hexc) (k : nat) (x : option txinfo),
-    (t < length (g_threads g0))%nat -> e <> XCommit ->
+    (t < length (g_threads g0))%nat ->
     ts_phase (thread (run_sched g0 (p ++ t :: q)) t) = PDone (Raised e k) x ->
     g_committed (run_sched g0 (p ++ [t])) = g_committed (run_sched g0 p).
 Proof. exact (@threads_raise_proof). Qed.
@@ -136,15 +96,14 @@ Theorem C08_threads_hub :
     start_threads g0 = true -> valid_sched g0 sched -> (t < length (g_threads g0))%nat ->
     let g := run_sched g0 sched in
     match ts_phase (thread g t) with
-    | PRun _ _ _ _ _ _ _ _ => resolve g t = Some (CTx t)
+    | PRun _ _ _ _ _ _ _ => resolve g t = Some (CTx t)
     | _ => resolve g t = resolve g0 t
     end.
 Proof. exact (@threads_hub_proof). Qed.
 
-Theorem C08_threads_released_partial :
+Theorem C08_threads_released :
   forall (g0 : gst) (sched : list nat) (t : nat) (r : result) (x : option txinfo),
     start_threads g0 = true -> valid_sched g0 sched -> (t < length (g_threads g0))%nat ->
-    ts_poison (thread g0 t) = None ->
     ts_phase (thread (run_sched g0 sched) t) = PDone r x ->
     x = Some {| x_obsolete := true; x_released := true |}.
 Proof. exact (@threads_released_proof). Qed.
@@ -160,48 +119,15 @@ Definition tab0 : table := {| t_rows := [(1, [v 1; v 1]); (2, [v 2; v 2])]; t_ne
 Definition body1 : list bstep := [BCreate (v 3) (v 3); BUpdate 1 0 (v 9); BDelete 2; BUpdate 3 1 None].
 Definition g_thr (bodies : list (list bstep)) : gst :=
   {| g_committed := tab0; g_lock := None; g_proc := None;
-     g_threads := map (fun ib => {| ts_slot := Some (CDb (fst ib)); ts_poison := None; ts_phase := PIdle (snd ib) |})
+     g_threads := map (fun ib => {| ts_slot := Some (CDb (fst ib)); ts_phase := PIdle (snd ib) |})
                       (combine (seq 0 (length bodies)) bodies) |}.
 Definition g_proc1 (body : list bstep) : gst :=
   {| g_committed := tab0; g_lock := None; g_proc := Some (CDb 0);
-     g_threads := [{| ts_slot := None; ts_poison := None; ts_phase := PIdle body |};
-                   {| ts_slot := None; ts_poison := None; ts_phase := PIdle [] |}] |}.
-(* the same, with the fault in the caller's environment: the parent's instance of row 1 raises in expire() *)
-Definition g_fault (body : list bstep) : gst :=
-  {| g_committed := tab0; g_lock := None; g_proc := Some (CDb 0);
-     g_threads := [{| ts_slot := None; ts_poison := Some 1; ts_phase := PIdle body |};
-                   {| ts_slot := None; ts_poison := None; ts_phase := PIdle [] |}] |}.
-
-(* ------------------------------------------------------------------ what is FALSE of the code (open finding) *)
-Lemma C08_all_or_nothing_refuted : ~ C08_all_or_nothing_full.
-Proof.
-  intros H. specialize (H (g_fault body1) 0%nat body1 0%nat false). cbv zeta in H.
-  assert (H1 : (0 < length (g_threads (g_fault body1)))%nat) by (vm_compute; repeat constructor).
-  specialize (H H1 eq_refl (conj eq_refl eq_refl) eq_refl).
-  vm_compute in H. destruct H as [(x & H & _)|(e & k & H & H' & _)]; discriminate.
-Qed.
-Lemma C08_released_refuted : ~ C08_released_full.
-Proof.
-  intros H. specialize (H (g_fault body1) 0%nat body1 0%nat false). cbv zeta in H.
-  assert (H1 : (0 < length (g_threads (g_fault body1)))%nat) by (vm_compute; repeat constructor).
-  specialize (H H1 eq_refl (conj eq_refl eq_refl) eq_refl).
-  vm_compute in H. destruct H as (r & H & _). discriminate.
-Qed.
-Example C08_fault_detail :
-  let g := g_fault body1 in
-  let g' := run_sched g (repeat 0%nat (length body1 + 2)) in
-  fault_strikes g 0 body1 = true /\ body_result tab0 body1 = Return [3] /\
-  ts_phase (thread g' 0) = PDone (Raised XCommit 4) (Some left_open) /\
-  t_rows (g_committed g') = [(1, [v 9; v 1]); (3, [v 3; None])] /\ resolve g' 0 = Some (CDb 0) /\
-  fault_strikes g 0 [BCreate (v 3) (v 3); BDelete 2] = false.
-Proof. vm_compute. repeat split. Qed.
-
-
+     g_threads := [{| ts_slot := None; ts_phase := PIdle body |}; {| ts_slot := None; ts_phase := PIdle [] |}] |}.
 Example C08_body1_alone :
   body_result tab0 body1 = Return [3] /\
   t_rows (body_table tab0 body1) = [(1, [v 9; v 1]); (3, [v 3; None])] /\
-  caller_bound (g_thr [body1]) 0 0 true /\ caller_bound (g_proc1 body1) 0 0 false /\
-  fault_strikes (g_thr [body1]) 0 body1 = false.
+  caller_bound (g_thr [body1]) 0 0 true /\ caller_bound (g_proc1 body1) 0 0 false.
 Proof. vm_compute. repeat split. Qed.
 (* raise after every prefix: the result is the raise, the table untouched, the hub restored *)
 Example C08_every_prefix :
@@ -230,16 +156,13 @@ Example C08_two_threads :
   g_lock (run_sched g0 [0; 1; 0]%nat) = Some 0%nat /\ resolve (run_sched g0 [0; 1; 0]%nat) 1 = Some (CTx 1).
 Proof. vm_compute. repeat split. Qed.
 
-Print Assumptions C08_all_or_nothing_partial.
-Print Assumptions C08_same_exception_partial.
+Print Assumptions C08_all_or_nothing.
+Print Assumptions C08_same_exception.
 Print Assumptions C08_hub_restored.
-Print Assumptions C08_released_partial.
-Print Assumptions C08_commit_failure.
+Print Assumptions C08_released.
 Print Assumptions C08_threads_all_at_once.
 Print Assumptions C08_threads_nothing_on_raise.
 Print Assumptions C08_threads_isolated.
 Print Assumptions C08_threads_hub.
-Print Assumptions C08_threads_released_partial.
+Print Assumptions C08_threads_released.
 Print Assumptions C08_threads_frame.
-Print Assumptions C08_all_or_nothing_refuted.
-Print Assumptions C08_released_refuted.
